@@ -27,9 +27,12 @@ pub enum Stack {
     ReplaceHdefault,
     CompactReplaceHdefault,
     Hdefault,
+    /// NoFinishHook receiving `replace` calls
+    ReplaceNoFinishH,
+    CompactReplaceNoFinishH,
 }
 
-pub const STACKS: [Stack; 10] = [
+pub const STACKS: [Stack; 12] = [
     Stack::H,
     Stack::ReplaceH,
     Stack::CompactH,
@@ -40,6 +43,8 @@ pub const STACKS: [Stack; 10] = [
     Stack::ReplaceHdefault,
     Stack::CompactReplaceHdefault,
     Stack::Hdefault,
+    Stack::ReplaceNoFinishH,
+    Stack::CompactReplaceNoFinishH,
 ];
 
 #[derive(Clone, Debug, Serialize, Deserialize)]
@@ -147,6 +152,20 @@ pub fn run_stack(
                 let r = guarded(|| diff_deadline(alg, &mut d, o, or, n, nr, dl));
                 collect(d.into_inner(), r)
             }
+            Stack::ReplaceNoFinishH => {
+                let mut d = Replace::new(NoFinishHook::new(RecHook::<true>::new(fail_at)));
+                let r = guarded(|| diff_deadline(alg, &mut d, o, or, n, nr, dl));
+                collect(d.into_inner().into_inner(), r)
+            }
+            Stack::CompactReplaceNoFinishH => {
+                let mut d = Compact::new(
+                    Replace::new(NoFinishHook::new(RecHook::<true>::new(fail_at))),
+                    o,
+                    n,
+                );
+                let r = guarded(|| diff_deadline(alg, &mut d, o, or, n, nr, dl));
+                collect(d.into_inner().into_inner().into_inner(), r)
+            }
             Stack::CompactReplaceHdefault => {
                 let mut d = Compact::new(Replace::new(RecHook::<false>::new(fail_at)), o, n);
                 let r = guarded(|| diff_deadline(alg, &mut d, o, or, n, nr, dl));
@@ -195,7 +214,11 @@ impl C08 {
             return fail("c08.success_ok", "diff failed although no hook call failed".into());
         }
         let nfinish = ok.calls.iter().filter(|c| **c == Call::Finish).count();
-        if case.stack == Stack::NoFinishH {
+        let no_finish = matches!(
+            case.stack,
+            Stack::NoFinishH | Stack::ReplaceNoFinishH | Stack::CompactReplaceNoFinishH
+        );
+        if no_finish {
             if nfinish != 0 {
                 return fail(
                     "c08.nofinish_suppresses",
@@ -224,6 +247,29 @@ impl C08 {
                         "c08.wrapper_forwards",
                         format!("{:?} saw a different call stream than the bare hook", case.stack),
                     );
+                }
+            }
+            Stack::ReplaceNoFinishH | Stack::CompactReplaceNoFinishH => {
+                let sib = if case.stack == Stack::ReplaceNoFinishH {
+                    Stack::ReplaceH
+                } else {
+                    Stack::CompactReplaceH
+                };
+                let base = run_stack(seq, sib, None, case.expire_at).map_err(pan)?;
+                out.execs += 1;
+                let mut expect = base.calls.clone();
+                expect.retain(|c| *c != Call::Finish);
+                if expect != ok.calls {
+                    return fail(
+                        "c08.wrapper_forwards",
+                        format!(
+                            "{:?}: NoFinishHook did not forward everything except finish: got {:?}, expected {:?}",
+                            case.stack, ok.calls, expect
+                        ),
+                    );
+                }
+                if ok.calls.iter().any(|c| matches!(c, Call::Replace(..))) {
+                    out.count("nofinish_forwarded_replace", 1);
                 }
             }
             Stack::ReplaceRefMutH => {
@@ -354,7 +400,7 @@ impl Prop for C08 {
         "fault_enumeration"
     }
     fn rule(&self) -> &'static str {
-        "cases are drawn from the run seed (algorithm, sequence pair, sub-ranges, lookup kind, hasher, adapter stack out of 10, optionally a deadline that expires at a drawn probe); a fault-free run records the T calls that reach the user hook, then EVERY k in 0..T is executed with 'call k returns Err(E(k))' (sampled beyond the cap). evaluations = executions of real code; a distinct non-trivial execution = distinct digest of (stack, algorithm, k, calls delivered up to the failure) among executions in which the injected hook error actually fired"
+        "cases are drawn from the run seed (algorithm, sequence pair, sub-ranges, lookup kind, hasher, adapter stack out of 12, optionally a deadline that expires at a drawn probe); a fault-free run records the T calls that reach the user hook, then EVERY k in 0..T is executed with 'call k returns Err(E(k))' (sampled beyond the cap). evaluations = executions of real code; a distinct non-trivial execution = distinct digest of (stack, algorithm, k, calls delivered up to the failure) among executions in which the injected hook error actually fired"
     }
     fn fault_names(&self) -> Vec<&'static str> {
         vec![
@@ -460,6 +506,7 @@ impl Prop for C08 {
                 agg.faults[F_FAIL_DEFAULT_REPLACE_SECOND_HALF],
             ),
             ("replace_flush_del_ins", agg.hits[27]),
+            ("nofinish_forwarded_replace", c("nofinish_forwarded_replace")),
         ]
     }
 }
